@@ -1,9 +1,9 @@
 CONSTANTS
-  Kind = "m"
-  MaxE = 3
+  Kind = "x"
+  MaxE = 2
   MaxUR = 3
-  MaxF = 0
-  UseStop = TRUE
+  MaxF = 1
+  UseStop = FALSE
   Flat = FALSE
   Pre = FALSE
 SPECIFICATION Spec
